@@ -294,7 +294,7 @@ void World::stream_send(StreamPeer *sp, const std::vector<uint8_t> &data, const 
     // deliver through an action so that a connection accepted later is still found
     std::vector<uint8_t> b = p.bytes;
     at_world(t, [this, spp, b]() {
-      if (!spp->conn) return;
+      if (!spp->conn) { if (!spp->accepted && !spp->early_close) spp->early.insert(spp->early.end(), b.begin(), b.end()); return; }
       VSock *v = spp->conn;
       v->rbytes.insert(v->rbytes.end(), b.begin(), b.end());
       TraceEv e;
@@ -310,7 +310,7 @@ void World::stream_send(StreamPeer *sp, const std::vector<uint8_t> &data, const 
 
 void World::stream_close(StreamPeer *sp, uint32_t delay) {
   at_world(now + delay, [this, sp]() {
-    if (!sp->conn) return;
+    if (!sp->conn) { if (!sp->accepted) sp->early_close = true; return; }
     sp->conn->eof = true;
     activity = true;
   });
@@ -663,6 +663,16 @@ int __wrap_coap_socket_accept_tcp(coap_socket_t *server, coap_socket_t *new_clie
     v->remote = pc.second->addr;
     v->speer = pc.second;
     pc.second->conn = v;
+    pc.second->accepted = true;
+    if (!pc.second->early.empty()) {
+      v->rbytes.insert(v->rbytes.end(), pc.second->early.begin(), pc.second->early.end());
+      TraceEv e;
+      e.t = W->now; e.kind = EV_STREAM_RX; e.val = pc.second->early.size();
+      if (W->record_payloads) e.data = pc.second->early;
+      W->trace.push_back(e);
+      pc.second->early.clear();
+    }
+    if (pc.second->early_close) v->eof = true;
     if (pc.second->on_connect) { StreamPeer *spp = pc.second; W->at_world(W->now, [spp]() { if (spp->on_connect) spp->on_connect(*W, *spp); }); }
   }
   new_client->fd = v->fd;
